@@ -443,8 +443,10 @@ class Check:
             cov["samples"] = ["(no generated cases in this run)"]
         ev = {"property_id": self.prop, "tier": self.tier, "seed": self.seed, "level": self.level, "coverage": cov,
               "assumptions": self.assumptions, "wall_s": round(wall, 2), "violations": viol}
-        os.makedirs(os.path.join(ROOT, "evidence"), exist_ok=True)
-        with open(os.path.join(ROOT, "evidence", self.prop + ".json"), "w") as f:
+        # evidence/ describes /repo only: a run against another tree (VERIF_REPO: seeded changes, private copies) writes elsewhere
+        evdir = os.path.join(ROOT, "evidence") if os.path.realpath(REPO) == "/repo" else os.path.join(ROOT, "build", "evidence_other_tree")
+        os.makedirs(evdir, exist_ok=True)
+        with open(os.path.join(evdir, self.prop + ".json"), "w") as f:
             json.dump(ev, f, indent=1, sort_keys=True, default=str)
         for l in lines:
             print(l, flush=True)
